@@ -202,10 +202,11 @@ func sourceAttributesBound(doc string, p *types.Project) *Failure {
 				return failf("c09:attribute-has-no-field:"+kind+"."+key, "%s %s: attribute %q of the source document has no field with that YAML name in %s", kind, name, key, t.Name())
 			}
 			f := v.Field(idx)
+			boundPtr := f.Kind() == reflect.Ptr && !f.IsNil() // a pointer field is bound when it is set, even to a zero value
 			for f.Kind() == reflect.Ptr && !f.IsNil() {
 				f = f.Elem()
 			}
-			zeroLike := val == nil || val == false || val == 0 || val == ""
+			zeroLike := val == nil || val == false || val == 0 || val == "" || val == "0s" || boundPtr
 			if l, ok := val.([]any); ok && len(l) == 0 {
 				zeroLike = true
 			}
